@@ -12,6 +12,7 @@ import time
 import traceback
 
 from . import callform
+from . import gen as gen_mod
 import warnings
 
 
@@ -87,6 +88,7 @@ class Ctx:
                 return
             self.cur = (stream, idx)
             callform.RNG.seed(f"{self.seed}:{self.pid}:{stream}:{idx}:callform")
+            gen_mod._conj_rng.seed(f"{self.seed}:{self.pid}:{stream}:{idx}:conj")
             yield idx, random.Random(f"{self.seed}:{self.pid}:{stream}:{idx}")
 
     def want(self, stream, idx):
@@ -95,6 +97,7 @@ class Ctx:
             return False
         self.cur = (stream, idx)
         callform.RNG.seed(f"{self.seed}:{self.pid}:{stream}:{idx}:callform")
+        gen_mod._conj_rng.seed(f"{self.seed}:{self.pid}:{stream}:{idx}:conj")
         return True
 
     def run_case(self, fn, *args):
